@@ -15,7 +15,7 @@ CLASSES = {
   'ChannelState': dict(file='scales/constants.py', path='ChannelState'),
   'Int': dict(file='scales/constants.py', path='Int'),
   'MessageProperties': dict(file='scales/constants.py', path='MessageProperties'),
-  'AsyncResult': dict(extern=True, path=None, fields={}, bases=[]),
+  'AsyncResult': dict(extern=True, path=None, fields={'g_sets': 'int', 'g_value': 'any', 'g_failed': 'bool', 'g_ready': 'bool'}, ghost=['g_sets', 'g_value', 'g_failed', 'g_ready'], bases=[]),
   # any ClientMessageSink used as a member channel; its state is an opaque observable
   'Channel': dict(extern=True, path=None, fields={'state': 'int', 'on_faulted': 'Observable', 'g_opens': 'int', 'g_closes': 'int'}, ghost=['g_opens', 'g_closes'], bases=['ClientMessageSink']),
 }
@@ -290,9 +290,7 @@ def lemma_root_min(heap, n, k):
     locals={'put_called': 'list[bool]', 'channel': 'Channel'},
     requires=['HeapInv(self)'],
     ensures=[],
-    modifies=['Node.load', 'Node.index', 'Node.downq', 'Node.g_inq', 'Node.g_rank', 'Node.g_out', 'list[Node]',
-              'HeapBalancerSink._downq', 'HeapBalancerSink._size', 'deque[tuple[any,any]]',
-              'Props.endpoint', 'Props.has_endpoint', 'Channel.state', 'Channel.g_closes', 'list[bool]'],
+    modifies=['*'],
     allocates=True,
     ghost=[
       {'after': 'n = self.__Get()', 'do': [
@@ -349,10 +347,7 @@ EXTERNS = {
   # last statement of the dispatch, so nothing is assumed about the state afterwards.
   'Channel.AsyncProcessRequest': dict(
     params=[('sink_stack', 'ClientMessageSinkStack'), ('msg', 'Message'), ('stream', 'any'), ('headers', 'any')],
-    modifies=['Node.load', 'Node.index', 'Node.downq', 'Node.g_inq', 'Node.g_rank', 'Node.g_out', 'list[Node]',
-              'HeapBalancerSink._downq', 'HeapBalancerSink._size', 'deque[tuple[any,any]]',
-              'Props.endpoint', 'Props.has_endpoint', 'Channel.state', 'Channel.g_closes', 'list[bool]'],
-    allocates=True),
+    modifies=['*'], allocates=True),
   'ChannelFactory.__call__': dict(params=[], returns='Channel', fresh=True, allocates=True,
                                   notes='functools.partial(next_provider.CreateSink, properties): builds a new member channel; touches no existing object'),
   'AsyncResult.Complete': dict(params=[], returns='AsyncResult'),
